@@ -121,6 +121,11 @@ func (g *topicsGen) emit(format string, a ...interface{}) {
 
 func (g *topicsGen) name() string {
 	r := g.r
+	if r.Intn(60) == 0 {
+		// the empty topic: neither a name nor a filter (MQTT-4.7.3-1); every entry point of the
+		// store must turn it away (finding B6, repaired) - it simply has to agree with the specification
+		return ""
+	}
 	n := 1 + r.Intn(4)
 	ls := make([]string, n)
 	for i := range ls {
@@ -129,15 +134,14 @@ func (g *topicsGen) name() string {
 			ls[i] = "" // empty level
 		}
 	}
-	s := strings.Join(ls, "/")
-	if s == "" {
-		s = "a"
-	}
-	return s
+	return strings.Join(ls, "/") // a single empty level is the empty topic
 }
 
 func (g *topicsGen) filter() string {
 	r := g.r
+	if r.Intn(60) == 0 {
+		return "" // the empty filter (see name)
+	}
 	if len(g.names) > 0 && r.Intn(4) == 0 {
 		// derive from a used name: replace levels by wildcards
 		ls := strings.Split(pick(r, g.names), "/")
@@ -173,11 +177,7 @@ func (g *topicsGen) filter() string {
 	if r.Intn(3) == 0 {
 		ls[n-1] = "#"
 	}
-	s := strings.Join(ls, "/")
-	if s == "" {
-		s = "+"
-	}
-	return s
+	return strings.Join(ls, "/") // a single empty level is the empty filter
 }
 
 func genTopics(seed int64, n int, tier string, w *bufio.Writer) {
@@ -268,6 +268,9 @@ func genTopicsSweep(seed int64, depth int, tier string, w *bufio.Writer) {
 	}
 	rec(nil, []string{"a", "b", "", "+", "#"}, &filters, depth)
 	rec(nil, []string{"a", "b", ""}, &names, depth)
+	// the empty topic (no level at all would be the root of the tries): neither a filter nor a name
+	filters = append(filters, "")
+	names = append(names, "")
 	for _, f := range filters {
 		fmt.Fprintln(w, "topics reset")
 		fmt.Fprintf(w, "topics sub %s 1 1\n", hexStr(f))
